@@ -28,4 +28,15 @@ impl PartialEq for ShaderStages {
     fn eq(&self, other: &ShaderStages) -> (r: bool) ensures r == (self.bits == other.bits) { self.bits == other.bits }
 }
 
+// `iter.collect::<ShaderStages>()`: bitflags' FromIterator is the union of all items
+pub open spec fn or_all(s: Seq<ShaderStages>) -> u32 decreases s.len() { if s.len() == 0 { 0 } else { or_all(s.drop_last()) | s.last().bits } }
+impl FromIterator<ShaderStages> for ShaderStages {
+    #[verifier::external_body]
+    fn from_iter<I: IntoIterator<Item = ShaderStages>>(iter: I) -> (r: ShaderStages)
+    { let mut b = 0; for s in iter { b |= s.bits; } ShaderStages { bits: b } }
+}
+impl vstd::std_specs::iter::FromIteratorSpecImpl<ShaderStages> for ShaderStages {
+    open spec fn from_iter_ensures(remaining: Seq<ShaderStages>, s: ShaderStages) -> bool { s.bits == or_all(remaining) }
+}
+
 } // verus!
